@@ -22,7 +22,7 @@ reach = z3.Function("reach", vm.V, vm.V, vm.V)          # _getattrr(obj, path, N
 is_eq = z3.Function("is_equal", vm.V, vm.V, z3.BoolSort())
 
 
-def skip_event_contract(changed_none=False):
+def skip_event_contract(changed_none=False, name_listed=True):
     holder = {}
 
     def configure(I):
@@ -48,7 +48,7 @@ def skip_event_contract(changed_none=False):
         U = I.U
         ev = I.alloc_obj(st, "Event", lazy=False, label="event")
         old, new = Sym(U.fresh("old_sub")), Sym(U.fresh("new_sub"))
-        st.heap[ev.oid].fields.update({"old": old, "new": new})
+        st.heap[ev.oid].fields.update({"old": old, "new": new, "name": Conc("a")})
         m = I.src.modules[MOD]
         fd = m.functions["_skip_event"]
         fv = FuncV("repo", module=m, cls=None, node=fd, self=None, qual="_skip_event")
@@ -56,14 +56,17 @@ def skip_event_contract(changed_none=False):
         if changed_none:
             kw = {"what": Conc("value")}
         else:
-            changed = Sym(U.fresh("changed"))
+            changed = Sym(U.fresh("subpaths"))
             st.pc.append(U.has_type(changed.t, ["list", "tuple"]))
             info["changed"] = changed.t
+            # `changed` maps a watched parameter name to the sub-paths of every dependency through it
+            cd = I.alloc_dict(st)
+            I.dict_store(st, cd, Conc("a" if name_listed else "other"), changed)
             f = S.fold(I, "all_leaves_equal", lambda p: is_eq(leaf(I, old.t, p), leaf(I, new.t, p)))
             info["fold"] = f
             holder["fold"] = f
             f.of_value(changed.t, unfold=0)
-            kw = {"what": Conc("value"), "changed": changed}
+            kw = {"what": Conc("value"), "changed": cd}
         return fv, [ev], kw, info
 
     def post(I, info, st, oc):
@@ -73,15 +76,18 @@ def skip_event_contract(changed_none=False):
         tb = z3.BoolVal(t) if isinstance(t, bool) else t
         if changed_none:
             return [("no sub-path information => never skipped", z3.Not(tb))]
+        if not name_listed:
+            return [("an event of a parameter depended on directly is never skipped", z3.Not(tb))]
         return [("skipped  <=>  every listed leaf is equal on the old and the new sub-object",
                  tb == info["fold"].of_value(info["changed"], unfold=0))]
     loops = {("_skip_event", "changed"): LoopSpec("changed", inv=lambda I, st, pre: pre.all(holder["fold"]), name="all-leaves-equal")}
+    nm = "changed=None" if changed_none else ("one event, arbitrary sub-paths" if name_listed else "event of a directly watched parameter")
     return FunctionContract("%s:_skip_event" % MOD, PROP, setup, post, configure=configure, loops=loops,
-                            name="_skip_event[%s]" % ("changed=None" if changed_none else "one event, arbitrary sub-paths"))
+                            name="_skip_event[%s]" % nm)
 
 
 def contracts():
-    return [skip_event_contract(False), skip_event_contract(True)]
+    return [skip_event_contract(False), skip_event_contract(True), skip_event_contract(False, name_listed=False)]
 
 
 ASSUMPTIONS = [
